@@ -30,14 +30,12 @@ fn h(bs: &[u8]) -> [u8; 32] { let mut s = Sha256::new(); s.update(bs); s.finaliz
 const BAL_OFF: usize = 64; // VM_MEMORY_BALANCES_OFFSET
 const BAL_ENTRY: usize = 40;
 
-/// hash of memory [0, sp); for an external caller the balance table (value words only) is masked out
-fn stack_hash(vm: &Vm, sp: usize, external: bool) -> [u8; 32] {
-    let mut v = vm.memory().read(0usize, sp).map(|s| s.to_vec()).unwrap_or_default();
-    if external {
-        let n = vm.max_inputs() as usize;
-        for i in 0..n { let o = BAL_OFF + i * BAL_ENTRY + 32; if o + 8 <= v.len() { v[o..o + 8].fill(0); } }
-    }
-    h(&v)
+/// hash of memory [lo, sp): `lo` = the script's initial `$ssp`, the end of the VM-initialised area (tx id, base asset,
+/// balance table, transaction bytes). That area is legitimately rewritten from any depth (TRO updates the variable output
+/// inside the transaction bytes, the script's CALL/TR debit its balance words); everything above it is somebody's stack.
+fn stack_hash(vm: &Vm, lo: usize, sp: usize) -> [u8; 32] {
+    if sp <= lo { return h(&[]); }
+    h(vm.memory().read(lo, sp - lo).unwrap_or(&[]))
 }
 
 /// address and current bytes of the balance word of `asset` in the VM's balance table
@@ -52,6 +50,7 @@ fn balance_word(vm: &Vm, asset: &[u8]) -> Option<(usize, [u8; 8])> {
 }
 
 struct Pending {
+    #[allow(dead_code)]
     external: bool,
     regs0: Vec<u64>,
     stack_hash: [u8; 32],
@@ -91,6 +90,7 @@ fn one_case(ctx: &mut Ctx, case: &g::Case, tag: &str) {
     };
     let mut steps = 0u64;
     let mut max_depth = 0usize;
+    let lo = vm.registers()[RegId::SSP] as usize; // first event: the script is about to execute its first instruction
     while state.is_debug() {
         steps += 1;
         if steps > 6000 { ctx.count("skipped-long"); break; }
@@ -128,7 +128,7 @@ fn one_case(ctx: &mut Ctx, case: &g::Case, tag: &str) {
                     } else { ctx.oracle_fail("frame-unreadable", &input, "cannot read frame+code"); }
                     // caller's stack untouched by the call itself
                     let external = regs0[FP] == 0;
-                    if stack_hash(&vm, old_sp as usize, external) != sh0 { ctx.oracle_fail("call-wrote-caller-stack", &input, "bytes below old $sp changed during CALL"); }
+                    if stack_hash(&vm, lo, old_sp as usize) != sh0 { ctx.oracle_fail("call-wrote-caller-stack", &input, "bytes below old $sp changed during CALL"); }
                     // the only other write: the debited balance word of an external caller
                     let mut deb = "-".to_string();
                     if external {
@@ -169,7 +169,7 @@ fn one_case(ctx: &mut Ctx, case: &g::Case, tag: &str) {
                     if regs[HP] != regs2[HP] { ctx.oracle_fail("hp-not-kept", &input, "$hp after return differs from the callee's"); }
                     if regs[GGAS] + charge != regs2[GGAS] { ctx.oracle_fail("ggas-not-kept", &input, "$ggas changed by more than the instruction's own cost"); }
                     let sp0 = p.regs0[SP] as usize;
-                    if stack_hash(&vm, sp0, p.external) != p.stack_hash { ctx.oracle_fail("caller-stack-changed", &input, "bytes [0,$sp) of the caller differ after the return"); }
+                    if stack_hash(&vm, lo, sp0) != p.stack_hash { ctx.oracle_fail("caller-stack-changed", &input, "bytes [script $ssp, caller $sp) differ after the return"); }
                     if depth(&vm) != p.depth { ctx.oracle_fail("depth-not-restored", &input, &format!("{} vs {}", depth(&vm), p.depth)); }
                     let hp = regs[HP] as usize;
                     match vm.memory().read(hp, MEM_SIZE - hp) {
@@ -192,7 +192,7 @@ fn one_case(ctx: &mut Ctx, case: &g::Case, tag: &str) {
                         let asset = vm.memory().read(c, 32usize).map(|s| s.to_vec());
                         if let (Ok(cb), Ok(asset)) = (cb, asset) {
                             let sp = regs[SP] as usize;
-                            let sh = stack_hash(&vm, sp, regs[FP] == 0);
+                            let sh = stack_hash(&vm, lo, sp);
                             let bal_before = balance_word(&vm, &asset);
                             prev = Prev::Call { regs0: regs.clone(), a, b, c, d, call_bytes: cb, asset, stack_len: vm.memory().stack_raw().len(), stack_hash: sh, depth: depth(&vm), bal_before };
                         }
